@@ -271,7 +271,7 @@ pub fn run(args: &[String]) {
         base[k] = v.clone();
       }
     }
-    let mut emit = |f: &mut std::io::BufWriter<std::fs::File>, mut rec: Value, n_records: &mut usize| {
+    let emit = |f: &mut std::io::BufWriter<std::fs::File>, mut rec: Value, n_records: &mut usize| {
       for (k, v) in base.as_object().unwrap() {
         if rec.get(k).is_none() {
           rec[k] = v.clone();
